@@ -129,3 +129,62 @@ def sym_header(prefix, pc):
         vals[f] = v
         terms[f] = t
     return header(**vals), terms
+
+
+class SymBytesData(dict):
+    """abstract byte string: identified by `id` (equal ids <=> equal bytes), with a symbolic length"""
+
+    def sym_eq(self, other):
+        return self['id'] == other['id']
+
+    def sym_ite(self, c, other):
+        return SymBytesData(id=z3.If(c, self['id'], other['id']), len=z3.If(c, self['len'], other['len']))
+
+    def flatten(self, out):
+        out.append(self['id'])
+
+    def length(self):
+        return self['len']
+
+    def __hash__(self):
+        return id(self)
+
+
+def sym_bytes(name, pc=None, maxlen=None):
+    ident = z3.BitVec(name + '_id', 256)
+    ln = z3.BitVec(name + '_len', 64)
+    if pc is not None:
+        pc.append(z3.ULE(ln, maxlen if maxlen is not None else (1 << 32)))
+    return Opaque('SymBytes', SymBytesData(id=ident, len=ln))
+
+
+def sym_coindata(name, pc):
+    den, dt, dh = sym_denom(name + '_denom', pc)
+    v = z3.BitVec(name + '_value', 128)
+    cov = z3.BitVec(name + '_covhash', 256)
+    cd = Agg('CoinData', [address(cov), coinvalue(v), den, sym_bytes(name + '_adata', pc)])
+    return cd, {'covhash': cov, 'value': v, 'denom_tag': dt, 'denom_custom': dh}
+
+
+def sym_value(ty, name, st):
+    """arbitrary value of a melstructs type; validity constraints go to st.pc"""
+    pc = st.pc
+    if ty == 'CoinDataHeight':
+        cd, _ = sym_coindata(name, pc)
+        return Agg('CoinDataHeight', [cd, blockheight(z3.BitVec(name + '_height', 64))])
+    if ty == 'CoinData':
+        return sym_coindata(name, pc)[0]
+    if ty == 'u64':
+        return z3.BitVec(name, 64)
+    if ty == 'u128':
+        return z3.BitVec(name, 128)
+    if ty == 'PoolState':
+        return Agg('PoolState', [z3.BitVec('%s_%s' % (name, f), 128) for f in POOLSTATE_FIELDS])
+    if ty == 'Header':
+        return sym_header(name, pc)[0]
+    if ty == 'CoinID':
+        return sym_coinid(name)[0]
+    if ty == 'StakeDoc':
+        return Agg('StakeDoc', [Agg('Ed25519PK', [z3.BitVec(name + '_pubkey', 256)]), z3.BitVec(name + '_e_start', 64),
+                                z3.BitVec(name + '_e_post_end', 64), coinvalue(z3.BitVec(name + '_syms', 128))])
+    raise Inconclusive('no symbolic constructor for type ' + ty)
